@@ -266,6 +266,10 @@ def models(tier, tmpdir):
             out.append((sp, {"rule": "TSLACK", "max_time": F.seq_bound(sp) + 10, "absence": [2, 3]}, sp["label"]))
     for sp in F.same_name_task_specs()[:2]:
         out.append((sp, {"rule": "TSLACK", "max_time": 14}, "same-name"))
+    for sp in F.double_link_specs()[:: (6 if tier == "quick" else 2)]:
+        out.append((sp, {"rule": "TSLACK", "max_time": 16}, sp["label"]))  # two tasks joined by two links of different kinds
+    for sp in F.nested_order_specs() + [F.loaned_worker_spec()] + F.two_pair_specs()[:: (3 if tier == "quick" else 1)]:
+        out.append((sp, {"rule": "TSLACK", "max_time": F.seq_bound(sp) + 8}, sp["label"]))
     # sub-project task, configured from a saved result and (second model) never configured
     sub = F.with_teams({"tasks": [{"name": "T0", "work": 2.0}], "links": []}, "POOL1")
     ms = S.build(sub)
